@@ -483,6 +483,9 @@ def evaluate__max_min_functions(self: XPathFunction, context: ta.ContextType = N
         elif any(isinstance(x, str) for x in values):
             if any(isinstance(x, ArithmeticProxy) for x in values):
                 raise self.error('FORG0006', "cannot compare strings with numeric data")
+        elif any(isinstance(x, bool) for x in values) \
+                and not all(isinstance(x, bool) for x in values):
+            raise self.error('FORG0006', "cannot compare xs:boolean with other types")
         elif all(isinstance(x, (Decimal, int)) for x in values):
             return aggregate_func(
                 cast(list[str], values)
